@@ -971,6 +971,54 @@ func c12GenValidSet(t *rapid.T) []ref.Matcher {
 	return set
 }
 
+// c12MutateOneMatcher copies the sets and changes one matcher minimally: "=" <-> "=~" with the same text
+// (an equality and a literal regex accept the same values), "=" -> "!=" on a matcher that is not the only
+// anchor of its set, or another value for an equality. Returns "" if no such change keeps the set valid.
+func c12MutateOneMatcher(t *rapid.T, sets [][]ref.Matcher) ([][]ref.Matcher, string) {
+	if len(sets) == 0 {
+		return nil, ""
+	}
+	out := make([][]ref.Matcher, len(sets))
+	for i := range sets {
+		out[i] = append([]ref.Matcher(nil), sets[i]...)
+	}
+	si := rapid.IntRange(0, len(out)-1).Draw(t, "mutSet")
+	set := out[si]
+	mi := rapid.IntRange(0, len(set)-1).Draw(t, "mutM")
+	m := set[mi]
+	anchors := 0
+	for _, x := range set {
+		if (x.Op == "=" && x.Value != "") || (x.Op == "=~" && x.Re != nil && !x.Re.Match("")) {
+			anchors++
+		}
+	}
+	isAnchor := (m.Op == "=" && m.Value != "") || (m.Op == "=~" && m.Re != nil && !m.Re.Match(""))
+	switch {
+	case m.Op == "=" && m.Value != "" && rapid.Bool().Draw(t, "mutToRe"):
+		set[mi] = ref.Matcher{Op: "=~", Name: m.Name, Re: &ref.Re{Op: "lit", Lit: m.Value}}
+		return out, "operator-only"
+	case m.Op == "=~" && m.Re != nil && m.Re.Op == "lit" && m.Re.Lit != "":
+		set[mi] = ref.Matcher{Op: "=", Name: m.Name, Value: m.Re.Lit}
+		return out, "operator-only"
+	case m.Op == "=" && (!isAnchor || anchors > 1):
+		set[mi] = ref.Matcher{Op: "!=", Name: m.Name, Value: m.Value}
+		return out, "operator-only"
+	case m.Op == "!=":
+		if m.Value != "" || anchors > 0 {
+			set[mi] = ref.Matcher{Op: "=", Name: m.Name, Value: m.Value}
+			return out, "operator-only"
+		}
+	case m.Op == "=" && m.Value != "":
+		for _, v := range gen.UniValues {
+			if v != m.Value {
+				set[mi] = ref.Matcher{Op: "=", Name: m.Name, Value: v}
+				return out, "value-only"
+			}
+		}
+	}
+	return nil, ""
+}
+
 type c12Gen struct {
 	t   *rapid.T
 	m   *ref.C12Silences
@@ -1161,9 +1209,17 @@ func (g *c12Gen) genEdit(p *ref.C12Silence) (*c12Sil, string) {
 		s.EndMs = max(startSec-rapid.SampledFrom([]int64{0, 1, 60}).Draw(t, "endBack"), 0) * 1000
 		intent = append(intent, "end-before-start")
 	}
-	if rapid.IntRange(0, 5).Draw(t, "editM") == 3 {
+	switch rapid.IntRange(0, 7).Draw(t, "editM") {
+	case 3:
 		s.Sets = [][]ref.Matcher{c12GenValidSet(t)}
 		intent = append(intent, "matchers")
+	case 4, 5:
+		// a minimal change of the stored matchers: only the operator of one matcher, or only its value
+		// (same names, same count, same order), which must still count as "different matchers"
+		if sets, what := c12MutateOneMatcher(t, p.MatcherSets); what != "" {
+			s.Sets = sets
+			intent = append(intent, "matchers", what)
+		}
 	}
 	if rapid.IntRange(0, 3).Draw(t, "editC") == 2 {
 		s.Comment = rapid.SampledFrom(c12Comments).Draw(t, "comment")
